@@ -115,7 +115,7 @@ pub fn build(
     };
 
     let mut fields: Vec<(String, isize)> = vec![];
-    let mut last_field = 0;
+    let mut last_field = Some(0);
     let mut default_index = None;
     for statement in &definition.statements {
         let grammar::EnumStatement {
@@ -128,7 +128,9 @@ pub fn build(
             Some(_) => anyhow::bail!(
                 "unsupported enum value for case `{name}` of enum `{resolvee_path}`: {expr:?}"
             ),
-            None => last_field,
+            None => last_field.with_context(|| {
+                format!("value of case `{name}` of enum `{resolvee_path}` overflows")
+            })?,
         };
         if let Some((min, max)) = discriminant_range(&ty, size) {
             if (value as i128) < min || (value as i128) > max {
@@ -151,7 +153,7 @@ pub fn build(
             }
         }
 
-        last_field = value + 1;
+        last_field = value.checked_add(1);
     }
 
     let mut singleton = None;
